@@ -426,7 +426,12 @@ def check_property(pid, tier, seed):
                 undecided.append(f"kani {kr['crate']}::{kr['harness']} did not complete: " + kr["tail"][-400:])
         rres = []
         if tier == "thorough":
-            for g in alt.get("replay", []):
+            # the thorough tier also runs the property's generators on the real code (testing, reported as such): the alternative's own list,
+            # and for the first alternative the property's witness generator
+            gens = list(alt.get("replay", []))
+            if alt is P["alternatives"][0] and P.get("witness") and P["witness"] not in gens:
+                gens.append(P["witness"])
+            for g in gens:
                 rr = run_replay(["witness", g])
                 rres.append({k: v for k, v in rr.items() if k != "witness"} if isinstance(rr, dict) else rr)
                 if rr.get("found"):
